@@ -48,9 +48,26 @@ def number_modules():
     """all discoverable number modules of the current tree, by name, sorted"""
     global _modules
     if _modules is None:
-        from stdnum.util import get_number_modules
-        _modules = sorted(get_number_modules(), key=lambda m: m.__name__)
+        _modules = discover_modules()
     return _modules
+
+
+def discover_modules():
+    """number modules found by walking the package ourselves (independent of util.get_number_modules, which
+    is itself code under test)"""
+    import pkgutil
+    import stdnum
+    out = []
+    with warnings.catch_warnings():
+        warnings.simplefilter('ignore')
+        for _l, name, _p in pkgutil.walk_packages(stdnum.__path__, 'stdnum.'):
+            try:
+                mod = importlib.import_module(name)
+            except Exception:
+                continue
+            if hasattr(mod, 'validate') and mod.__name__ == name:
+                out.append(mod)
+    return sorted(out, key=lambda m: m.__name__)
 
 
 def module(name):
@@ -178,6 +195,45 @@ def _candidates_for(mod):
     return out
 
 
+def _boundary_valid(mod, valid, per_module=40):
+    """synthesised valid numbers at the edges of the payload space: runs of 9s / 0s after a short prefix of a
+    known valid number, repaired by searching the last one or two characters (digits and X) until the real
+    is_valid() accepts.  They exercise range tables, century switches and padding that documentation samples miss."""
+    out = []
+    seen = set()
+    comp = getattr(mod, 'compact', None)
+    tails1 = list('0123456789X')
+    for v in valid[:3]:
+        try:
+            c = comp(v) if comp else v
+        except Exception:
+            continue
+        if not isinstance(c, str) or len(c) < 4 or len(c) > 40:
+            continue
+        for fill in '90':
+            for k in (0, 1, 3, 4, 6):
+                if k >= len(c) - 1:
+                    continue
+                body = c[:k] + ''.join(fill if ch.isdigit() else ch for ch in c[k:-1])
+                cands = [body + t for t in tails1]
+                if len(c) > 6:
+                    cands += [body[:-1] + a + b for a in '0123456789' for b in '0123456789']
+                for cand in cands:
+                    if cand in seen:
+                        continue
+                    try:
+                        ok = mod.is_valid(cand) is True
+                    except Exception:
+                        ok = False
+                    if ok:
+                        seen.add(cand)
+                        out.append(cand)
+                        break
+                if len(out) >= per_module:
+                    return out
+    return out
+
+
 _corpus = None
 
 
@@ -204,7 +260,9 @@ def corpus(max_per_module=400):
                 except Exception:
                     ok = False
                 (valid if ok else invalid).append(s)
-            res[mod.__name__] = {'valid': valid[:max_per_module], 'invalid': invalid[:max_per_module]}
+            valid = valid[:max_per_module]
+            valid += [b for b in _boundary_valid(mod, valid) if b not in set(valid)]
+            res[mod.__name__] = {'valid': valid, 'invalid': invalid[:max_per_module]}
     for old in glob.glob(os.path.join(WORK, 'corpus-*.json')):
         try:
             os.remove(old)
